@@ -398,7 +398,14 @@ func (s *Server) invoke(base context.Context, h Handler, req *Request) (json.Raw
 		}
 		return nil, err // a call reporting an error
 	}
-	return json.Marshal(v)
+	bits, err := json.Marshal(v)
+	if err != nil && req.IsNotification() {
+		// As above: a notification has no reply, so a result that cannot be
+		// encoded must not turn into an error response either.
+		s.log("Discarding unencodable result from notification to %q: %v", req.Method(), err)
+		return nil, nil
+	}
+	return bits, err
 }
 
 // ServerInfo returns an atomic snapshot of the current server info for s.
